@@ -21,7 +21,7 @@ PENDING = {
 }
 CHECKS = {
 "C06": dict(cat="exploration", ref="DESIGN.md section 7, C06",
-  text="Seeded histories of up to 12 chains over a tree of reusable handles (Open, Session, WithContext, Debug, Begin, chain.Session), steps of different chains interleaved by a schedule vector, chain methods drawn swarm-style from a small per-history palette so that several chains touch the same clause of the same handle; every executed finisher (DryRun: Statement SQL+Vars; real: driver statements, bound values, rows, error) must equal the same chain replayed alone - only its own ancestry - on a fresh Open. Seeded sampling of histories.",
+  text="Seeded histories of up to 12 chains over a tree of reusable handles (Open, Session, WithContext, Debug, Begin, chain.Session), steps of different chains interleaved by a schedule vector, chain methods (including other handles passed as sub-queries and group conditions) drawn swarm-style from a small per-history palette so that several chains touch the same clause of the same handle; every executed finisher (DryRun: Statement SQL+Vars; real: driver statements, bound values, rows, error) must equal the same chain replayed alone - only its own ancestry - on a fresh Open. Seeded sampling of histories.",
   note="Trusted: a single chain is deterministic (the isolated replay is run twice and must agree with itself); intermediate chain values are used linearly; write finishers in real-mode histories go through a DryRun session.",
   tech="deterministic simulation: seeded interleaving of logical clients over a handle tree with isolation-replay oracle"),
 "C14": dict(cat="exploration", ref="DESIGN.md section 7, C14",
@@ -33,7 +33,7 @@ CHECKS = {
   note="Trusted: the write-token serialisation of write transactions (SQLite single writer); no parking inside database/sql; the race detector's bounded history; the serial run as the reference for 'same result as when it runs alone'.",
   tech="deterministic simulation: seeded baton scheduler over real goroutines + race detector + serial-run differential"),
 "C18": dict(cat="exploration", ref="DESIGN.md section 7, C18",
-  text="Seeded write, read (preload, joins, batches, rows, count, pluck) and association-mode operations started from WithContext/Session{Context} with a uniquely tagged context, at transaction nesting 0..3, PrepareStmt on/off, ConnPool shim on/off, cold/warm: the tag is checked on every ConnPool call and every context-carrying driver call while the run proceeds; the operation is re-run with the context cancelled beforehand (no statement may reach the driver, the context error is returned) and with the context cancelled just before pool call k for every k (no later statement may reach the driver, an error is returned, nothing leaks).",
+  text="Seeded write, read (preload, joins, batches, rows, count, pluck) and association-mode operations started from WithContext/Session{Context} with a uniquely tagged context, at transaction nesting 0..3, PrepareStmt on/off, ConnPool shim on/off, cold/warm, optionally after sibling handles bound to another (cancelled) context were derived from the operation's handle: the tag is checked on every ConnPool call and every context-carrying driver call while the run proceeds; the operation is re-run with the context cancelled beforehand (no statement may reach the driver, the context error is returned) and with the context cancelled just before pool call k for every k (no later statement may reach the driver, an error is returned, nothing leaks).",
   note="Trusted: the tag is a context value (child contexts are fine); Commit/Rollback/Close carry no context; cancellation is injected between pool calls only; database/sql's own context handling.",
   tech="deterministic simulation: context-tag invariant at the pool and driver seams + cancellation injected at every pool call index"),
 "C13": dict(cat="fault_enumeration", ref="DESIGN.md section 7, C13",
@@ -41,11 +41,11 @@ CHECKS = {
   note="Trusted: record identity = address the hook receives; AfterFind accounting uses rows delivered by the driver; records sharing a key with another record of the same value are exempt from the must-be-visited rule (gorm saves one of them, which one is unspecified).",
   tech="deterministic simulation: hook-invocation fault enumeration with event-log oracle"),
 "C04": dict(cat="fault_enumeration", ref="DESIGN.md section 7, C04",
-  text="Seeded trees of Transaction blocks (and manual Begin/SavePoint/RollbackTo/Commit scripts) run in lock-step with a snapshot-stack reference model on the real gorm/database/sql/SQLite stack, fault-free and once per driver call (BEGIN, SAVEPOINT, ROLLBACK TO, statements, COMMIT, Prepare) with that call failing; thorough adds fault pairs. Checks durable table contents, read-backs inside blocks, identity of propagated errors/panics, usability of the enclosing transaction and leaked connections. Sampled over programs, exhaustive over single fault sites per program in the thorough tier.",
+  text="Seeded trees of Transaction blocks (and manual Begin/SavePoint/RollbackTo/Commit scripts) run in lock-step with a snapshot-stack reference model on the real gorm/database/sql/SQLite stack, fault-free and once per driver call (BEGIN, SAVEPOINT, ROLLBACK TO, statements, COMMIT, Prepare) with that call failing, and once per call into the connection pool with the caller's context cancelled just before it (nothing durable, an error reported); thorough adds fault pairs. Checks durable table contents, read-backs inside blocks, identity of propagated errors/panics, usability of the enclosing transaction and leaked connections. Sampled over programs, exhaustive over single fault sites per program in the thorough tier.",
   note="Trusted: SQLite savepoint semantics as the reference for what a scope undoes; the dialector shim that reports SAVEPOINT/ROLLBACK TO errors; the narrow relaxations listed in DESIGN.md (refused ROLLBACK TO, lost COMMIT acknowledgement).",
   tech="deterministic simulation: driver fault enumeration over transaction-block programs vs snapshot-stack reference model"),
 "C05": dict(cat="fault_enumeration", ref="DESIGN.md section 7, C05",
-  text="Every write operation of a seeded sample of record graphs is run once per fault site (every driver call, result row and hook invocation of its fault-free run) on the real gorm/database/sql/SQLite stack; the database dump, the returned Error and leaked transactions/connections are checked after each. Exhaustive per case in the thorough tier, sampled over cases; a clean batch is evidence, not proof.",
+  text="Every write operation of a seeded sample of record graphs is run once per fault site (every driver call, result row and hook invocation of its fault-free run, and cancellation of the operation's context before every call into the connection pool; injected errors are plain or wrap a well-known error such as context.DeadlineExceeded or sql.ErrTxDone) on the real gorm/database/sql/SQLite stack; the database dump, the returned Error and leaked transactions/connections are checked after each. Exhaustive per case in the thorough tier, sampled over cases; a clean batch is evidence, not proof.",
   note="Trusted: SQLite transaction semantics, the driver shim's fault model (errors instead of or after execution, ErrBadConn only instead of execution), the dump side channel. One fault per run.",
   tech="deterministic simulation: per-site driver/hook fault enumeration with before/after dump oracle"),
 }
